@@ -263,6 +263,15 @@ namespace
                 out = {dim == 2 ? w.temperature(std::array<double,2>{{p[0], p[1]}}, depth)
                        : w.temperature(std::array<double,3>{{p[0], p[1], p[2]}}, depth)
                       };
+              else if (via == "temperature_g")      // the deprecated overloads that still take a gravity norm
+                {
+#pragma GCC diagnostic push
+#pragma GCC diagnostic ignored "-Wdeprecated-declarations"
+                  out = {dim == 2 ? w.temperature(std::array<double,2>{{p[0], p[1]}}, depth, 10.)
+                         : w.temperature(std::array<double,3>{{p[0], p[1], p[2]}}, depth, 10.)
+                        };
+#pragma GCC diagnostic pop
+                }
               else if (via == "composition")
                 out = {dim == 2 ? w.composition(std::array<double,2>{{p[0], p[1]}}, depth, props[0][1])
                        : w.composition(std::array<double,3>{{p[0], p[1], p[2]}}, depth, props[0][1])
